@@ -781,6 +781,9 @@ def main():
     err, fields = translate_fn.translate_supervised(REPO, GEN, consts, write)
     if err:
         notes.append(f"TRANSLATOR-IMP(supervised): {err}")
+    err = translate_fn.translate_build(REPO, GEN, consts, write)
+    if err:
+        notes.append(f"TRANSLATOR-IMP(subgraph constructor): {err}")
     err = translate_fn.translate_semi(REPO, GEN, consts, write, fields)
     if err:
         notes.append(f"TRANSLATOR-IMP(semi): {err}")
